@@ -26,7 +26,7 @@ from .. import units as U
 from .. import lints
 from ..npsym import NpSym
 from ..symx import alg_equal, Undecided
-from .C07 import Specialiser, walk_guarded, own_exprs, _int_attr
+from .C07 import Specialiser, walk_guarded, own_exprs, _int_attr, _polarity
 
 QF = "SplineInterpolator1D.get_quadrature_coefficients"
 INTEGRALS = ("self._basis.integrals", "self._basis._integrals")
@@ -140,9 +140,25 @@ class _Vec:
         self.length, self.pieces, self.fresh = length, list(pieces), fresh
 
 
+BS_INTEGRALS = ("self._integrals", "self.integrals")
+
+
+def _bsplines_table(periodic):
+    t = {}
+    for a in ("nbasis", "_nbasis"):
+        t[f"self.{a}"] = N
+    for a in ("degree", "_degree"):
+        t[f"self.{a}"] = P
+    for a in ("ncells", "_ncells"):
+        t[f"self.{a}"] = N if periodic else N - P
+    return t
+
+
 class VecReader:
-    def __init__(self, table):
+    def __init__(self, table, integrals=INTEGRALS, periodic=True, smod=None, depth=0):
         self.table = dict(table)
+        self.integrals, self.periodic, self.smod, self.depth = tuple(integrals), periodic, smod, depth
+        self.ilen = N + P if periodic else N          # the stored integrals: one per unwrapped basis function (ncells + degree)
         self.env = {}
         self.solves = []          # (call node, rhs _Vec, trans node or None)
         self.ret = None
@@ -194,8 +210,12 @@ class VecReader:
 
     def vec(self, e):
         s_ = src(e)
-        if s_ in INTEGRALS:
-            return _Vec(N + P, [(sp.Integer(0), N + P, "I", sp.Integer(0), False)], False)
+        if s_ in self.integrals:
+            return _Vec(self.ilen, [(sp.Integer(0), self.ilen, "I", sp.Integer(0), False)], False)
+        if isinstance(e, ast.Attribute) and src(e.value) in ("self._basis", "self.basis") and self.smod is not None and self.depth < 2:
+            got = self.basis_property(e.attr)
+            if got is not None:
+                return got
         if isinstance(e, ast.Name):
             v = self.env.get(e.id)
             if isinstance(v, _Vec):
@@ -255,11 +275,34 @@ class VecReader:
             return _Vec(a.length, a.pieces + b.pieces, True)
         raise Unk(f"`{s_[:50]}` is not an array expression the analysis follows")
 
+    def basis_property(self, attr):
+        """a property of the basis that returns an array built from its stored integrals: its (specialised) body is read by the same
+        rules, `self` being the basis"""
+        try:
+            m = self.smod.methods("BSplines").get(attr)
+        except Exception:
+            m = None
+        if m is None or not any(src(d) == "property" for d in m.decorator_list):
+            return None
+        try:
+            body = Specialiser(self.smod, "BSplines", facts={"self.periodic": self.periodic, "self._periodic": self.periodic}).run(attr)
+        except Exception:
+            return None
+        if not any(isinstance(x, ast.Attribute) and src(x) in BS_INTEGRALS for st in body for x in ast.walk(st)):
+            return None
+        sub = VecReader(_bsplines_table(self.periodic), integrals=BS_INTEGRALS, periodic=self.periodic, smod=None, depth=self.depth + 1)
+        sub.run(body)
+        if sub.ret is None:
+            raise Unk(f"property `{attr}` of the basis returns nothing the analysis follows")
+        self.shared_writes += sub.shared_writes
+        self.buffered += sub.buffered
+        return sub.ret
+
     def tracked(self, st):
         for x in ast.walk(st):
             if isinstance(x, ast.Name) and isinstance(self.env.get(x.id), _Vec):
                 return True
-            if isinstance(x, ast.Attribute) and src(x) in INTEGRALS:
+            if isinstance(x, ast.Attribute) and src(x) in self.integrals:
                 return True
             if isinstance(x, ast.Call) and src(x.func) == "self._splu.solve":
                 return True
@@ -382,6 +425,17 @@ class VecReader:
                 raise Unk(f"`{src(st)[:60]}`")
             owner, lo, hi = self.target(t, st)
             return self.add_into(st, owner, lo, hi, self.vec(st.value))
+        if isinstance(st, ast.Expr) and isinstance(st.value, ast.Call) and src(st.value.func) in ("np.add", "numpy.add") and len(st.value.args) == 2 \
+                and [k.arg for k in st.value.keywords] == ["out"] and self.tracked(st):
+            # np.add(a, b, out=a) is `a += b`; np.add(a, b, out=t) is `t[...] = a + b`
+            a, b, out = st.value.args[0], st.value.args[1], st.value.keywords[0].value
+            for x, y in ((a, b), (b, a)):
+                if src(x) == src(out):
+                    owner, lo, hi = self.target(out, st)
+                    return self.add_into(st, owner, lo, hi, self.vec(y))
+            owner, lo, hi = self.target(out, st)
+            val = self.vec(ast.BinOp(left=a, op=ast.Add(), right=b))
+            return self.add_into(st, owner, lo, hi, _Vec(val.length, list(val.pieces), True), replace=True)
         if isinstance(st, ast.Expr) and isinstance(st.value, ast.Call) and src(st.value.func) in ("np.add.at", "numpy.add.at") and len(st.value.args) == 3:
             owner = self.vec(st.value.args[0])
             idx = self.wrapped_index(st.value.args[1])
@@ -421,7 +475,8 @@ def weights_mechanism(chk):
     # ---- periodic: the value returned is splu.solve(<folded integrals>, trans='T')
     body = bodies[True]
     rets = [st for st in _flat(body) if isinstance(st, ast.Return)]
-    R = VecReader(_interp_table(True))
+    smod = chk.mod(U.SPLINES)
+    R = VecReader(_interp_table(True), smod=smod)
     why = None
     try:
         R.run(body)
@@ -489,6 +544,22 @@ def weights_mechanism(chk):
             break
         b_in, fresh = _copy_or_view(b) if b is not None else (None, None)
         b_ok = b is not None and (src(b) in INTEGRALS or src(b_in) in INTEGRALS)
+        if b is not None and not b_ok:
+            # the right-hand side as an array expression over the stored integrals (a property of the basis, a copy, a full slice):
+            # on a clamped space it must hold integral k at entry k, for all nbasis entries
+            try:
+                Rc = VecReader(_interp_table(False), periodic=False, smod=smod)
+                before = []
+                for x in body:
+                    if any(y is call for y in ast.walk(x)):
+                        break
+                    before.append(x)
+                Rc.run(before)
+                vb = Rc.vec(got["b"])
+                cov = _coverage(vb, sp.Integer(0), N)
+                b_ok = _same(vb.length, N) and cov == [("I", sp.Integer(0), False)] and not Rc.shared_writes and not Rc.buffered
+            except Unk:
+                b_ok = False
         if wrong:
             badc = "; ".join(wrong) + ": the banded solve is given the factors of the interpolation matrix in the wrong places"
         elif not tr or (isinstance(tr[0], ast.Constant) and tr[0].value in (False, 0, "N")):
@@ -1048,22 +1119,40 @@ def uniform_cubic_integrals(chk):
            "both boundaries (1 or 2 cells) loses both parts" if okb else
            (badb or "the reduction of the boundary integrals is not followed (neither a loop over the three boundary functions with one "
                     "subtraction per end, nor whole-array subtractions over literal index sets)"), file=U.SPLINES, func=BI)
+    # ---- general branch: no data-dependent shortcut decides where the integrals come from
+    general_single_formula(chk, fn, bodies)
     # ---- general branch: one formula for every unwrapped function, the wrapped copies of a periodic space included
     gen = bodies[(False, True)]
     table = _space_table(True)
     loops = [st for st in _flat(gen) if isinstance(st, ast.For) and
              any(isinstance(x, ast.Assign) and isinstance(x.targets[0], ast.Subscript) and _is_integrals(x.targets[0].value) for x in ast.walk(st))]
     okw, badw = False, None
-    if loops and isinstance(loops[0].iter, ast.Call) and src(loops[0].iter.func) == "range" and 1 <= len(loops[0].iter.args) <= 2 \
+    gen_ints = {}
+    for st in _flat(gen):
+        if isinstance(st, ast.Assign) and len(st.targets) == 1 and isinstance(st.targets[0], ast.Name):
+            v = _int_attr(st.value, {**table, **gen_ints})
+            if v is not None:
+                gen_ints[st.targets[0].id] = v
+    whole = [st for st, guards in walk_guarded(gen) if isinstance(st, ast.Assign) and isinstance(st.targets[0], ast.Subscript)
+             and _is_integrals(st.targets[0].value)]
+    if not loops and len(whole) == 1 and not any(_is_integrals(x) or isinstance(x, (ast.Call, ast.IfExp, ast.ListComp)) for x in ast.walk(whole[0].value)):
+        # one whole-array expression gives every entry: the same formula for all unwrapped functions by construction
+        b = _slice_bounds(whole[0].targets[0], {**table, **gen_ints}, NC + D)
+        if b is not None and _same(b[0], 0) and _same(b[1], NC + D):
+            okw = True
+            loops = [whole[0]]
+    elif loops and isinstance(loops[0].iter, ast.Call) and src(loops[0].iter.func) == "range" and 1 <= len(loops[0].iter.args) <= 3 \
             and isinstance(loops[0].target, ast.Name):
         iv = loops[0].target.id
         IV = sp.Symbol("i_", integer=True)
-        bnds = [_int_attr(a, table) for a in loops[0].iter.args]
+        bnds = [_int_attr(a, {**table, **gen_ints}) for a in loops[0].iter.args]
         stores = [x for x in ast.walk(loops[0]) if isinstance(x, ast.Assign) and isinstance(x.targets[0], ast.Subscript) and
                   _is_integrals(x.targets[0].value)]
-        idxs = [_int_attr(x.targets[0].slice, {**table, iv: IV}) for x in stores]
+        idxs = [_int_attr(x.targets[0].slice, {**table, **gen_ints, iv: IV}) for x in stores]
         lo = hi = None
-        if all(b is not None for b in bnds) and len(stores) == 1 and idxs[0] is not None and sp.expand(idxs[0]).coeff(IV) == 1:
+        if len(bnds) == 3 and all(b is not None for b in bnds) and bnds[2] == -1:
+            bnds = [bnds[1] + 1, bnds[0] + 1]          # range(a, b, -1) visits b+1 .. a: the same indices in the other order
+        if len(bnds) <= 2 and all(b is not None for b in bnds) and len(stores) == 1 and idxs[0] is not None and sp.expand(idxs[0]).coeff(IV) == 1:
             rlo, rhi = (sp.Integer(0), bnds[0]) if len(bnds) == 1 else bnds
             lo, hi = sp.expand(idxs[0].subs(IV, rlo)), sp.expand(idxs[0].subs(IV, rhi))       # entries [lo, hi) are written
         if lo is not None and _same(lo, 0) and _same(hi, NC + D):
@@ -1082,6 +1171,48 @@ def uniform_cubic_integrals(chk):
     chk.pat("Q3-integrals-storage", loops[0] if loops else fn, "general: for i in range(self.ncells + d) with one formula", okw,
             "every unwrapped basis function, the wrapped copies of a periodic space included, is integrated by the same antiderivative "
             "identity", badw, file=U.SPLINES, func=BI)
+
+
+APPROX = ("np.allclose", "np.isclose", "numpy.allclose", "numpy.isclose", "math.isclose", "np.array_equal", "np.testing.assert_allclose")
+
+
+def general_single_formula(chk, fn, bodies):
+    """On a general (not uniform-cubic) space the stored integrals come from the same statements on every path: a store into the
+    integrals that sits under a test of the DATA (knots, break points) selects another formula for some spaces.  A shortcut selected
+    by an approximate comparison is a recognised wrong form: it treats spaces that merely pass the tolerance as if they had the
+    special property."""
+    ok, bad, node, why = True, None, fn, None
+    for per in (True, False):
+        body = bodies[(False, per)]
+        for st, guards in walk_guarded(body):
+            tgt = st.targets[0] if isinstance(st, ast.Assign) and st.targets else st.target if isinstance(st, ast.AugAssign) else None
+            if tgt is None or not (isinstance(tgt, ast.Subscript) and _is_integrals(tgt.value)):
+                continue
+            data_guards = [(t, pol) for t, pol, _n in guards if not (isinstance(t, ast.Compare) and isinstance(t.ops[0], (ast.In, ast.NotIn)))]
+            if not data_guards:
+                continue
+            t, pol = data_guards[-1]
+            approx = [c for c in ast.walk(t) if isinstance(c, ast.Call) and src(c.func) in APPROX and src(c.func) != "np.array_equal"]
+            tol = [c for c in ast.walk(t) if isinstance(c, ast.Compare) and isinstance(c.ops[0], (ast.Lt, ast.LtE)) and
+                   any(isinstance(x, ast.Call) and src(x.func) in ("abs", "np.abs", "np.max", "np.ptp") for x in ast.walk(c.left))]
+            if (approx or tol) and pol and ok is not False:
+                a = approx[0] if approx else tol[0]
+                kw = [k.arg for k in a.keywords] if isinstance(a, ast.Call) else []
+                ok, node = False, st
+                bad = (f"on a {'periodic' if per else 'clamped'} general space `{src(st)[:60]}` stores the integrals whenever `{src(t)[:90]}` "
+                       f"holds, instead of the antiderivative formula: `{src(a)[:70]}` is an approximate comparison"
+                       + (" with numpy's default tolerances (absolute 1e-8, relative 1e-5, not scaled to the cell width)"
+                          if isinstance(a, ast.Call) and "atol" not in kw and "rtol" not in kw and "close" in src(a.func) else "") +
+                       ", so break points that are NOT equidistant but pass it (small domains, slightly perturbed grids) get the integrals "
+                       "of a uniform grid: the stored integrals are not those of the basis functions and the quadrature weights do not "
+                       "integrate the interpolant")
+            elif ok:
+                ok, node = None, st
+                why = (f"`{src(st)[:60]}` stores integrals of a general space only when `{src(t)[:60]}` is {pol}: which formula a space gets "
+                       "depends on a test of its data that is not followed")
+    chk.ob("Q3-general-one-formula", node, "general family: the integrals come from the same statements on every path", ok,
+           "no store into the integrals of a general space is selected by a test of the knots or break points" if ok else (bad or why),
+           file=U.SPLINES, func=BI)
 
 
 def integrals_not_memoised_on_summary(chk):
@@ -1129,13 +1260,20 @@ def run(chk):
     chk.explanation = (
         "Narrow mechanism claim: quadrature weights are the transposed solve, with the interpolation factorisation, of the stored "
         "basis integrals (periodic: integrals of the wrapped copies folded onto the first p entries of a copy); the stored integrals "
-        "are not mutated; uniform-cubic interior integrals are dx and the auxiliary construction of the boundary integrals is "
+        "are not mutated; the matrix of that system is the collocation matrix with accumulating wrapped columns (analysis shared "
+        "with C08); on a general space no test of the knots selects another formula for the integrals; uniform-cubic interior integrals are dx and the auxiliary construction of the boundary integrals is "
         "translation invariant; boundary integrals of the clamped uniform cubic case are reduced (not assigned) at both ends; the "
         "general branch integrates every unwrapped function, wrapped copies included, by one formula. Each method is read as the "
         "straight-line code it is on one kind of space (branches on periodicity / family resolved, attribute aliases and private "
         "helper methods written back). The antiderivative identity itself is numerical and is not re-derived.")
     chk.in_file(U.INTERP)
     weights_mechanism(chk)
+    # the matrix whose transposed system the weights solve is the collocation matrix (shared with C08: same analysis, read here because
+    # weights = A^{-T} I integrate the interpolant only if A holds B_j(x_i), the sum of both contributions where a periodic function
+    # occurs twice in a span)
+    from .C08 import collocation_fill
+    collocation_fill(chk, chk.func(U.INTERP, "SplineInterpolator1D.collocation_matrix"),
+                     rules=("Q1-collocation-columns", "Q1-collocation-accumulate"))
     uniform_cubic_integrals(chk)
     integrals_not_memoised_on_summary(chk)
     chk.floor("Q", 9)
